@@ -1,7 +1,7 @@
 """C06 — times mod 24 h, instants on the epoch line (wiring, guards, floor, units)."""
 from ._std import *
 from ..rules import ranges, wiring, units
-from ..rules.common import hir_walk, node_line
+from ..rules.common import hir_walk, node_line, fold, tri
 
 EXPLANATION = (
     "Static wiring (R2), dominance (R11), typestate (R6) and unit/floor (R4/R5) rules on the type-checked HIR exported "
@@ -67,12 +67,13 @@ def main(tier):
     if h is None:
         run.anchor_missing(rule, "epoch_milliseconds", "not found")
     else:
-        de = [n for n in hir_walk(h.hir) if isinstance(n, dict) and n.get("k") == "mcall" and n["name"] == "div_euclid"]
-        tr_div = [n for n in hir_walk(h.hir) if isinstance(n, dict) and n.get("k") == "bin" and n["op"] in ("/", "%")]
-        okf = len(de) == 1 and not tr_div and de[0]["args"][0].get("k") == "lit" and de[0]["args"][0]["v"].get("int") == 10**6
-        run.check(okf, rule, "Instant::epoch_milliseconds", "div_euclid(1_000_000)",
-                  "epoch_milliseconds does not floor-divide by 10^6 (found %d div_euclid, %d truncating ops)" %
-                  (len(de), len(tr_div)), h.loc)
+        # folded on negative non-multiples, multiples and positives of 10^6 ns (values, not the shape of the division)
+        I = "temporal_rs::builtins::core::instant::Instant"
+        E = "temporal_rs::epoch_nanoseconds::EpochNanoseconds"
+        for ns in (-1, -999_999, -1_000_000, -1_000_001, 0, 1, 999_999, 1_000_000, 1_000_001, -8_640_000_000_000_000_000_000):
+            got = fold(H.Evaluator(fx), h, [H.V(I, (H.V(E, (ns,)),))])
+            tri(run, rule, "Instant(%d ns)" % ns, got, got == ("val", ns // 1_000_000), "epoch_milliseconds = %d" % (ns // 1_000_000),
+                "Instant(%d ns).epoch_milliseconds() = %s, floor(ns / 10^6) = %d" % (ns, got[1], ns // 1_000_000), h.loc)
     units.report(run, fx, "C06")
     ranges.check_balance(run, fx)
     return run.finish(EXPLANATION)
